@@ -65,6 +65,8 @@ func DefaultCheck(name string, e *vrt.Exec) *Violation {
 	switch e.Outcome {
 	case vrt.Deadlock:
 		return &Violation{Scenario: name, Signature: "deadlock|" + BlockedSig(e), Message: "deadlock: " + strings.Join(e.BlockedSet(), " ")}
+	case vrt.Livelock:
+		return &Violation{Scenario: name, Signature: "livelock|" + BlockedSig(e), Message: fmt.Sprintf("livelock: %d timer firings in a row were the only thing left to do, the execution never comes to rest: %s", vrt.LivelockEnvStreak, strings.Join(e.BlockedSet(), " "))}
 	case vrt.Panicked:
 		return &Violation{Scenario: name, Signature: "panic|" + PanicClass(e.PanicVal) + "|" + vrt.TopRepoFrame(e.PanicStack),
 			Message: fmt.Sprintf("panic in T%d: %v\n%s", e.PanicTid, e.PanicVal, e.PanicStack)}
